@@ -262,20 +262,20 @@ def _echo_steps(n_expected: int):
 
 @harness(
     "C10",
-    dom={"mi": (0, len(MESSAGES) - 1), "frag": (0, 3), "ping": "bool", "deflate": "bool", "seg": (0, 2), "carrier": (0, 1)},
+    dom={"mi": (0, len(MESSAGES) - 1), "frag": (0, 3), "ping": "bool", "deflate": "bool", "seg": (0, 2), "carrier": (0, 1), "prior": (0, 1)},
     split={"mi": "each", "carrier": "each"},
-    witnesses=[{"mi": 3, "frag": 2, "ping": True, "deflate": False, "seg": 1, "carrier": 0}, {"mi": 5, "frag": 1, "ping": False, "deflate": True, "seg": 0, "carrier": 0},
-               {"mi": 0, "frag": 0, "ping": False, "deflate": False, "seg": 0, "carrier": 1}],
+    witnesses=[{"mi": 3, "frag": 2, "ping": True, "deflate": False, "seg": 1, "carrier": 0, "prior": 0}, {"mi": 5, "frag": 1, "ping": False, "deflate": True, "seg": 0, "carrier": 0, "prior": 0},
+               {"mi": 0, "frag": 0, "ping": False, "deflate": False, "seg": 0, "carrier": 1, "prior": 0}, {"mi": 3, "frag": 1, "ping": False, "deflate": True, "seg": 0, "carrier": 0, "prior": 1}],
     budget=120,
     per_path=60,
-    bounds="8 message lists (empty, multi-byte UTF-8, at/over the 10-character limit, 12-byte/4-character text) x 4 fragmentations (incl. byte-wise and inside a code point) x ping between fragments x permessage-deflate on/off x read segmentation {one read, frame per read, byte per read} x carrier {HTTP/1.1 upgrade, HTTP/2 extended CONNECT}",
+    bounds="8 message lists (empty, multi-byte UTF-8, at/over the 10-character limit, 12-byte/4-character text) x 4 fragmentations (incl. byte-wise and inside a code point) x ping between fragments x permessage-deflate on/off x read segmentation {one read, frame per read, byte per read} x carrier {HTTP/1.1 upgrade, HTTP/2 extended CONNECT} x {first connection of the process, after an earlier compressed connection that exchanged messages}",
     encodes=["hypercorn/protocol/ws_stream.py::WSStream._handle_events", "hypercorn/protocol/ws_stream.py::WSStream.app_send", "hypercorn/protocol/ws_stream.py::Handshake.accept",
              "hypercorn/protocol/h11.py::H11WSConnection.next_event", "hypercorn/protocol/h2.py::H2Protocol._handle_events"],
     stubs=["tier B runtime", "independent wsproto client (framing, permessage-deflate) and h2 client"],
 )
-def ws_message_session(mi: int, frag: int, ping: bool, deflate: bool, seg: int, carrier: int) -> bool:
+def ws_message_session(mi: int, frag: int, ping: bool, deflate: bool, seg: int, carrier: int, prior: int) -> bool:
     """
-    pre: DOM(ws_message_session, mi=mi, frag=frag, ping=ping, deflate=deflate, seg=seg, carrier=carrier)
+    pre: DOM(ws_message_session, mi=mi, frag=frag, ping=ping, deflate=deflate, seg=seg, carrier=carrier, prior=prior)
     post: _
     """
     enter()
@@ -283,12 +283,25 @@ def ws_message_session(mi: int, frag: int, ping: bool, deflate: bool, seg: int, 
     frag = conc(frag, 0, 3)
     seg = conc(seg, 0, 2)
     carrier = conc(carrier, 0, 1)
+    prior = conc(prior, 0, 1)
     ping = True if ping else False
     deflate = True if deflate else False
     if ping and deflate and frag != 0:
         # wsproto 1.3.2 itself corrupts a compressed fragmented message when a ping is interleaved
         # (reproduced client<->server without hypercorn): a defect shared by both sides of the oracle
         return done(True, skipped="permessage-deflate + ping between fragments: wsproto library defect")
+    if prior:
+        if QUICK and (seg != 0 or ping or frag > 1):
+            return done(True, skipped="quick tier: sessions after an earlier connection arrive in one read, whole or in two fragments, without pings")
+        w0, _ = _session(3, 0, False, True, 0, 0)
+        if w0:
+            return done(False, why="earlier connection: " + w0)
+    why, vec = _session(mi, frag, ping, deflate, seg, carrier)
+    return done(why == "", prior=prior, **vec)
+
+
+def _session(mi: int, frag: int, ping: bool, deflate: bool, seg: int, carrier: int):
+    """One WebSocket connection from handshake to the last message; returns (why, vector)."""
     msgs = MESSAGES[mi]
     conn = Conn(None, make_config(websocket_max_message_size=10), alpn="h2" if carrier == 1 else "http/1.1")
     app = GatedApp(conn.ctx, lambda scope, idx: _echo_steps(len(msgs)), gated=False)
@@ -301,7 +314,7 @@ def ws_message_session(mi: int, frag: int, ping: bool, deflate: bool, seg: int, 
         conn.feed(ws_h1_handshake(extensions=b"permessage-deflate" if deflate else None))
         head = split_h1_head(conn.take())
         if head is None or head[0] != 101:
-            return done(False, why=f"handshake failed: {head!r}")
+            return f"handshake failed: {head!r}", {}
         status, headers, rest = head
         acc = [v for n, v in headers if n == b"sec-websocket-extensions"]
         ws.finalize(acc[0] if acc else None)
@@ -318,7 +331,7 @@ def ws_message_session(mi: int, frag: int, ping: bool, deflate: bool, seg: int, 
         h2c.feed(conn.take())
         st = h2c.streams[1]
         if st.status != 200:
-            return done(False, why=f"extended CONNECT refused: {st!r} {h2c.errors}")
+            return f"extended CONNECT refused: {st!r} {h2c.errors}", {}
         acc = [v for n, v in st.headers if n == b"sec-websocket-extensions"]
         ws.finalize(acc[0] if acc else None)
         ws.feed(st.data)
@@ -381,4 +394,4 @@ def ws_message_session(mi: int, frag: int, ping: bool, deflate: bool, seg: int, 
         why = f"client framing errors {ws.errors!r}"
     if not why and conn.sched.errors:
         why = "exception escaped a task: %r" % (conn.sched.errors[0],)
-    return done(why == "", msgs=repr(msgs), frag=FRAG[frag], ping=ping, deflate=deflate, seg=seg, carrier=["h1", "h2"][carrier], why=why)
+    return why, dict(msgs=repr(msgs), frag=FRAG[frag], ping=ping, deflate=deflate, seg=seg, carrier=["h1", "h2"][carrier], why=why)
